@@ -2436,7 +2436,10 @@ namespace bloch::runtime {
 
             bool lIsBool = l.type == Value::Type::Boolean;
             bool rIsBool = r.type == Value::Type::Boolean;
-            if (lIsBool || rIsBool) {
+            // String concatenation accepts any operand (the analyser types "s" + true as string).
+            const bool isConcat = bin->op == "+" && (l.type == Value::Type::String ||
+                                                     r.type == Value::Type::String);
+            if ((lIsBool || rIsBool) && !isConcat) {
                 auto toBool = [&](const Value& v) -> bool {
                     if (v.type == Value::Type::Boolean)
                         return v.boolValue;
